@@ -111,7 +111,7 @@ def run(tier):
         "layouts": len(layouts), "pipelines": len(cfgs) + 1, "markers_checked": nmarkers, "runs_failed_with_an_error (not judged)": skipped,
         "exhaustive": False,
     })
-    rep.assumptions += ["markers are string literals 'L<n>'; a literal that a rule folds into a longer string (compute_expression on 'L12' .. 'x') is new code and not a marker any more",
+    rep.assumptions += ["markers are string literals 'L<line>s<slot>' (unique per program); a copy of an expression made by a rule is new code: a marker is misplaced only when no occurrence of it is on its line; a literal that a rule folds into a longer string (compute_expression on 'L12' .. 'x') is new code and not a marker any more",
                         "group_local_assignment is excluded as the property says; bundling shift is checked by C05's driver, not here",
                         "line = 1 + number of LF bytes before the token"]
     return rep.finish()
